@@ -6,6 +6,8 @@ DEFAULT_PARENT_MIN_SPEED: int = 1
 DEFAULT_PARENT_SPEED_RATIO: int = 50
 DEFAULT_WISHLIST_INTERVAL: int = 600
 DEFAULT_READ_TIMEOUT: float = 60
+PEER_ADDRESS_TIMEOUT: float = 10
+"""Timeout waiting for the server to return the address of a peer"""
 PEER_CONNECT_TIMEOUT: float = 10
 """Direct connection timeout"""
 PEER_INDIRECT_CONNECT_TIMEOUT: float = 60
